@@ -12,9 +12,10 @@ from . import hostrig
 from .c04 import INV4, INV5, host_consts, pmap
 from .core import Ctx
 
-REACTIONS = ("cover", "stale", "nak", "silence", "latecover", "latenak", "error", "rstack", "nakcover", "slowcover", "slownak")
+REACTIONS = ("cover", "stale", "nak", "silence", "latecover", "latenak", "error", "rstack", "nakcover", "slowcover", "slownak", "lateerror")
 PAIRS = (("cover", "error"), ("nak", "cover"), ("error", "rstack"), ("rstack", "cover"), ("cover", "nak"),
-         ("error", "cover"), ("stale", "nak"), ("rstack", "error"))
+         ("error", "cover"), ("stale", "nak"), ("rstack", "error"), ("nak", "error"), ("nak", "rstack"), ("stale", "error"),
+         ("nak", "nak"), ("error", "nak"), ("error", "error"))
 
 
 def frames_for(kind, last_frm, code_e=0x51, code_r=11):
@@ -27,7 +28,7 @@ def frames_for(kind, last_frm, code_e=0x51, code_r=11):
         return [{"type": "NAK", "res": 0, "nrdy": 0, "ack": n}]
     if kind == "nakcover":
         return [{"type": "NAK", "res": 0, "nrdy": 0, "ack": (n + 1) % 8}]
-    if kind == "error":
+    if kind in ("error", "lateerror"):
         return [{"type": "ERROR", "ver": 2, "code": code_e}]
     if kind == "rstack":
         return [{"type": "RSTACK", "ver": 2, "code": code_r}]
